@@ -261,7 +261,7 @@ def random_spec(rng, **o):
     nc = g('nc', int(rng.integers(3, 9)))
     nt = g('nt', int(rng.integers(2, 6)))
     nsw = g('nsw', int(rng.integers(3, 8)))
-    ns = g('ns', int(rng.integers(max(6, nt + 2), 40)))
+    ns = max(g('ns', int(rng.integers(max(6, nt + 2), 40))), nt + 1)
     s.names = g('names', 'ks')
     s.vec2d = g('vec2d', False)
     s.sample_rate = float(g('rate', [1., 100., 30000.][int(rng.integers(0, 3))]))
@@ -367,7 +367,7 @@ def random_spec(rng, **o):
             s.pc_feature_ind = ind.astype(g('dtype_ind', 'int32'))
         s.pc_feature_spike_ids = rows
     if g('tfeatures', False):
-        nloc = min(nt, int(rng.integers(2, 4)))
+        nloc = min(nt, g('tfeat_nloc', int(rng.integers(2, 4))))
         trows = None
         if g('tfeat_rows', False):
             k = int(rng.integers(2, ns))
